@@ -37,6 +37,7 @@ def r2_lifting(run, tree):
     run.rule("C09.R2", "component-count gate; unary/mapping methods and the numpy dispatch act on every component; nvec; norm not cached",
              "D7 fold (ModelEval)", "", floor=18)
     cf.check_vector_unary_and_maps(run, tree)
+    cf.check_vector_component_reassigned(run, tree)
     cf.check_vector_nvec(run, tree)
     cf.check_vector_norm_fresh(run, tree)
     cf.check_vector_wrap_numpy(run, tree)
